@@ -251,6 +251,7 @@ class CHeap:
         self.loop = asyncio.new_event_loop()
         asyncio.set_event_loop(self.loop)
         self.by_id = {}
+        self.created = []
         self.done_cbs = []
         self.events = []
         self.st0 = z3.Array(c.fresh_name("st0"), z3.IntSort(), z3.IntSort())
@@ -266,7 +267,9 @@ class CHeap:
         asyncio.set_event_loop(None)
 
     def new(self):
-        return self.loop.create_future()
+        f = self.loop.create_future()
+        self.created.append(f)
+        return f
 
     def from_id(self, i):
         if i in self.by_id:
@@ -563,3 +566,45 @@ def heap_eq_except(c, snap, f, newstate):
         if g is not f and id(g) in snap.states:
             ok = ok and st(g) == snap.states[id(g)]
     return ok
+
+
+def fut_set(c, name, maxn=3):
+    """A python set of distinct pre-state futures (bounded: |set| <= maxn; states symbolic)."""
+    h = heap(c)
+    if c.symbolic:
+        n = c.choose(name + ".size", list(range(maxn, -1, -1)))
+        out = set()
+        for k in range(n):
+            ref = z3.IntVal(100 + k)
+            c.assume_z3(z3.And(z3.Select(h.st0, ref) >= 0, z3.Select(h.st0, ref) <= 3))
+            out.add(SFut(h, ref))
+        c.ghost.setdefault("sets", {})[name] = n
+        return out
+    if c.model is not None:
+        n = dict(c.choices).get(name + ".size")
+        n = maxn - n if n is not None else 0
+    else:
+        n = c.rng.randint(0, maxn)
+    return {h.from_id(100 + k) for k in range(n)}
+
+
+def done_callbacks(c):
+    """(future, callback) registrations: ghost list (symbolic) / real futures' callback lists."""
+    h = heap(c)
+    if c.symbolic:
+        return list(h.done_cbs)
+    out = []
+    for f in list(h.by_id.values()) + list(h.created):
+        for cb in getattr(f, "_callbacks", None) or []:
+            out.append((f, cb[0] if isinstance(cb, tuple) else cb))
+    return out
+
+
+def members_sorted(fs):
+    """deterministic order for a python set of futures (same in symbolic and concrete mode)."""
+    def key(f):
+        if isinstance(f, SFut):
+            r = z3.simplify(f.ref)
+            return r.as_long() if z3.is_int_value(r) else 0
+        return getattr(f, "_pyvc_id", 0)
+    return sorted(fs, key=key)
